@@ -77,6 +77,9 @@ func WorkerMain(t *testing.T) {
 		f(t, out)
 		*flagRuns = 0
 	}
+	if cap, ok := profileRunCap[*flagProfile]; ok && *flagRuns > cap {
+		*flagRuns = cap
+	}
 	for i := 0; i < *flagRuns; i++ {
 		if *flagBudget > 0 && time.Since(start) > *flagBudget {
 			break
@@ -159,6 +162,10 @@ func nontrivial(prop string, res *Result) bool {
 	}
 	return res.Stats.Probes[prop+"-relevant"] > 0
 }
+
+// profileRunCap bounds the number of runs of profiles that do not fill a time
+// budget (real-time sub-checks).
+var profileRunCap = map[string]int{"c04gc": 24}
 
 // specialWorkers are profiles that are not "generate a program, run it":
 // complete enumerations and the like. They fill the WorkerOut themselves.
